@@ -53,6 +53,26 @@ def main():
                                repo + '/', scratch + '/'])
         passed, failed, tail = run(scratch, {'PYTHONPATH': scratch})
         missing = (STABLE - passed) - EXPECTED_SOURCE_FAIL
+        if 0 < len(missing) <= 25:
+            # server / timing sensitive tests can fail on a loaded machine: retry each one alone
+            for tid in sorted(missing):
+                cls, name = tid.split('::', 1)
+                parts = cls.split('.')
+                node = None
+                for i in range(len(parts), 0, -1):
+                    f = os.path.join(scratch, *parts[:i]) + '.py'
+                    if os.path.exists(f):
+                        node = '::'.join([os.path.join(*parts[:i]) + '.py'] + parts[i:] + [name])
+                        break
+                if node is None:
+                    continue
+                env = dict(os.environ, PYTHONPATH=scratch)
+                env.pop('FALCON_VERIF', None)
+                r = subprocess.run(['/venv/bin/python', '-m', 'pytest', '-q', '-p', 'no:cacheprovider', '--timeout=900', node],
+                                   cwd=scratch, env=env, capture_output=True, text=True)
+                if r.returncode == 0 and ' passed' in r.stdout:
+                    missing.discard(tid)
+                    print('  retried alone and passed:', tid)
         print(tail)
         print('source-only: passed=%d stable_missing=%d' % (len(passed), len(missing)))
         for m in sorted(missing)[:30]:
